@@ -134,6 +134,9 @@ func uiScenarios() []uiScenario {
 		{Name: "S5-hook-vs-esc-j", Setup: settleOpen(P), Actors: []func(*uidrv.Driver){key('o'), key(27), key('j')}},
 		{Name: "S6-command-typing-vs-resize", Setup: settleOpen(P), Actors: []func(*uidrv.Driver){keysSeq(":f"), resize(30, 8), resize(36, 9)}},
 		{Name: "S7-jjj-one-loader", Setup: settleOpen(P), Actors: []func(*uidrv.Driver){key('j'), key('j'), key('j')}},
+		// the post is opened a second time while the replies of the first page are still being
+		// loaded: two loaders harvest the same replies collection concurrently
+		{Name: "S9-open-then-space-two-loaders-one-collection", Setup: nil, Actors: []func(*uidrv.Driver){open(P), key(' ')}},
 		{Name: "S8-command-open-vs-k", Setup: func(d *uidrv.Driver) {
 			settleOpen(P)(d)
 			for _, b := range []byte(":open " + A) {
@@ -411,6 +414,16 @@ type replay struct {
 }
 
 func faultKey(f string) string {
+	if strings.HasPrefix(f, "data-race:") {
+		// name the field of the first access: "data-race: write at pub/collection.go:95 .following by ..."
+		fs := strings.Fields(f)
+		for i, w := range fs {
+			if w == "at" && i+2 < len(fs) {
+				return "data-race:" + strings.SplitN(fs[i+1], ":", 2)[0] + fs[i+2]
+			}
+		}
+		return "data-race"
+	}
 	for _, p := range []string{"lock-discipline", "frame-overlap", "deadlock", "panic", "no progress", "duplicate-request", "horizon", "frame of", "command failed"} {
 		if strings.HasPrefix(f, p) || strings.Contains(f, p) {
 			k := strings.ReplaceAll(p, " ", "-")
@@ -538,7 +551,11 @@ func raceSupplement(r *ev.Report) {
 		return
 	}
 	bin := filepath.Join(scratch, "c08race")
-	build := exec.Command("go", "build", "-race", "-tags", "verif", "-overlay", overlay, "-o", bin, "./checks/c08")
+	args := []string{"build", "-race", "-tags", "verif", "-overlay", overlay, "-o", bin}
+	if mf := os.Getenv("VERIF_MODFILE"); mf != "" { // a seeded change tried in a scratch worktree
+		args = append(args, "-modfile="+mf)
+	}
+	build := exec.Command("go", append(args, "./checks/c08")...)
 	build.Dir = ev.VerifDir()
 	if out, err := build.CombinedOutput(); err != nil {
 		ev.Fatal("cannot build the -race variant: %v\n%s", err, out)
@@ -669,7 +686,7 @@ func main() {
 	r.Traces = r.Executions()
 	r.Extra["scenarios"] = names
 	r.Assumptions = append(r.Assumptions,
-		"scheduling points: Mutex.Lock, WaitGroup.Wait, go (spawn), goroutine exit, dial (a fetch takes time), the output callback; sufficient for data-race-free code; accesses the scheduler does not see (plain memory) are not covered here - the fan-out's result determinism oracle and C06/C09 exercise them indirectly",
+		"scheduling points: Mutex.Lock, WaitGroup.Wait, go (spawn), goroutine exit, dial (a fetch takes time), the output callback; sufficient for data-race-free code. Data-race freedom itself is decided in the same executions: reads and writes of struct fields in pub and splicer (through receivers, pointer parameters, &T{} locals and slice elements) are routed through the scheduler's conflict detector, which reports two accesses to one address, one of them a write, that the execution's happens-before relation (lock, WaitGroup, go, cache and singleflight keys) does not order. Not instrumented: map and slice element contents, locals captured by closures (covered by the result-determinism oracle and by the free-running -race supplement)",
 		"UI scenarios run the pub/splicer/client fan-out inline (fork-join at the spawn point); the pub-level scenarios schedule it fully and show the result is schedule-independent",
 		"a scenario that does not finish a bound within its time budget reports the last completed bound (exhaustive only up to that bound)",
 		"supplement (sampling, not the deciding step): the same scenario bodies are built with the Go race detector and run free-running without the scheduler, 3 rounds (quick) / 100 rounds (thorough); the detector is happens-before based, so a race is usually reported in the first round it is executed",
